@@ -71,7 +71,30 @@ def generate(rng, tier, index):
             op['attrs'] = [gen.A('Cryptographic Length', 128),
                            gen.A('Cryptographic Algorithm', 3),
                            gen.A('Cryptographic Usage Mask', 12)]
-        return {'actor': a, 'ver': list(ver), 'items': [op]}
+        rq = {'actor': a, 'ver': list(ver), 'items': [op]}
+        y = r.random()
+        if y < 0.3 and depth[0] == 0:
+            # several items in one request: more creating items, items that
+            # fail (before or after), under Stop or Continue - whatever a
+            # response reports as created must exist and stay unique
+            depth[0] = 1
+            items = [op]
+            for _ in range(r.choice([1, 1, 2])):
+                z = r.random()
+                if z < 0.45:
+                    items.insert(r.randrange(len(items) + 1), r.choice([
+                        {'op': 'Get', 'uid': '424242'},
+                        {'op': 'Activate', 'uid': '424242'},
+                        {'op': 'Destroy', 'uid': '0'},
+                        {'op': 'GetAttributes', 'uid': 'nosuch'}]))
+                else:
+                    items.append(creator(a)['items'][0])
+            depth[0] = 0
+            rq['items'] = items
+            rq['cont'] = r.choice([None, 1, 1, 2])
+        return rq
+
+    depth = [0]
 
     def destroy(o):
         ctx.objs.remove(o)
